@@ -50,7 +50,7 @@ def cases(prop, tier, seed):
                                 out.append(dict(kind="C16", dt=dt, si=si, shape=shape, pat=pat, cont=cont, wc=with_classes, t=t,
                                                 key=[dt, si, shape, pat, cont, with_classes]))
         return out
-    reps = 120 if tier == "quick" else 800
+    reps = 120 if tier == "quick" else 4000
     for t in range(reps):
         out.append(dict(kind="C17", dseed=int(rs.randint(1 << 30)), n=int(rs.randint(1, 7)), a=int(rs.randint(1, 5)), k=int(rs.randint(2, 5)),
                         enc=t % 4, weights=t % 3, t=t, key=["C17", t]))
